@@ -529,7 +529,7 @@ func TestC20_FreshProcess(t *testing.T) {
 	sem := make(chan struct{}, 8)
 	focus := 0
 	for i := 0; i < n; i++ {
-		r := result{i: i, mode: "workload", procs: []int{16, 4, 2}[i%3], focus: -1}
+		r := result{i: i, mode: "workload", procs: []int{16, 4, 2, 64, 7, 128, 1, 32}[i%8], focus: -1}
 		if i%4 == 3 {
 			r.mode = "1"
 		} else {
